@@ -42,9 +42,9 @@ func processReadBuf(rb []byte, searchDepth int) []byte {
 }
 
 func (c *Channel) read() {
-	defer func() {
-		c.readLoopExited = true
-	}()
+	defer c.exitedOnce.Do(func() {
+		close(c.exited)
+	})
 
 	for {
 		select {
@@ -77,7 +77,12 @@ func (c *Channel) read() {
 				"encountered error reading from transport during channel read loop. error: %s", err,
 			)
 
-			c.Errs <- err
+			select {
+			case c.Errs <- err:
+			case <-c.done:
+				// nobody will read the error any more
+				return
+			}
 
 			time.Sleep(c.ReadDelay)
 
@@ -122,8 +127,10 @@ func (c *Channel) Read() ([]byte, error) {
 	default:
 	}
 
-	if c.readLoopExited {
+	select {
+	case <-c.exited:
 		return nil, util.ErrConnectionError
+	default:
 	}
 
 	b := c.Q.Dequeue()
